@@ -98,6 +98,9 @@ const Directory = "/sim"
 // InstanceOptions selects optional seams.
 type InstanceOptions struct {
 	NoSharedBus bool // leave EventBus nil so that the instance creates its own default bus
+	// DirectChannelFactory overrides the simulated direct channel (e.g. the real stream-based adapter
+	// over a FakeHost).
+	DirectChannelFactory iface.DirectChannelFactory
 }
 
 // Start boots an OrbitDB instance on the peer over the simulated environment.
@@ -115,6 +118,9 @@ func (p *Peer) Start(opts *InstanceOptions) (*Instance, error) {
 		Cache:                inst.Cache,
 		DirectChannelFactory: p.net.PubSub.DirectChannelFactory(p),
 		PubSub:               p.net.PubSub.PubSubFor(p),
+	}
+	if opts.DirectChannelFactory != nil {
+		o.DirectChannelFactory = opts.DirectChannelFactory
 	}
 	if !opts.NoSharedBus {
 		inst.Bus = NewBus()
